@@ -673,65 +673,91 @@ func (h *History) advanceVotings(b int) {
 func (h *History) wasmAction(b int) {
 	n, r, w := h.N, h.R, h.W
 	fpg := n.App.State.FeePerGas()
-	if common.ZeroOrNil(fpg) || !n.Cfg.Consensus.EnableUpgrade11 || len(w.Keys) < 3 || r.Intn(3) != 0 {
+	if common.ZeroOrNil(fpg) || !n.Cfg.Consensus.EnableUpgrade11 || len(w.Keys) < 3 || r.Intn(2) != 0 {
 		return
 	}
 	nU := len(w.Keys) - 1
 	budget := new(big.Int).Mul(fpg, big.NewInt(3000000))
-	var live []*ContractInfo
+	// validation refuses maxFee / minFeePerGas above the block gas cap ("too high max fee")
+	feeCap := new(big.Int).Mul(fee.GetFeePerGasForNetwork(n.App.ValidatorsCache.NetworkSize()), big.NewInt(2400000))
+	if budget.Cmp(feeCap) > 0 {
+		budget = feeCap
+	}
+	var incs, sums []*ContractInfo
+	pending := 0
 	for _, c := range h.Contracts {
 		if c.Kind != "wasm-inc" && c.Kind != "wasm-sum" {
 			continue
 		}
 		if c.Addr == (common.Address{}) {
-			if rc := n.Chain.GetReceipt(c.deployTx); rc != nil && rc.Success {
-				c.Addr = rc.ContractAddress
-				h.Stats["contract:"+c.Kind+":deployed"]++
+			if rc := n.Chain.GetReceipt(c.deployTx); rc != nil {
+				if rc.Success {
+					c.Addr = rc.ContractAddress
+					h.Stats["contract:"+c.Kind+":deployed"]++
+				} else {
+					c.deployTx, c.Kind = common.Hash{}, "wasm-failed"
+					continue
+				}
+			} else if n.Pool.GetTx(c.deployTx) == nil { // dropped by the pool
+				c.Kind = "wasm-failed"
+				continue
+			} else {
+				pending++
 			}
 		}
 		if c.Addr != (common.Address{}) && c.Live(n) {
-			live = append(live, c)
+			if c.Kind == "wasm-inc" {
+				incs = append(incs, c)
+			} else {
+				sums = append(sums, c)
+			}
 		}
 	}
 	i := 1 + r.Intn(nU)
 	if n.App.State.GetBalance(w.Addrs[i]).Cmp(new(big.Int).Mul(budget, big.NewInt(3))) < 0 {
 		return
 	}
-	if len(live) < 2 && r.Intn(2) == 0 {
-		kind := []string{"wasm-inc", "wasm-sum"}[r.Intn(2)]
-		var code []byte
-		var args [][]byte
-		if kind == "wasm-inc" {
-			code, _ = testdata.IncFunc()
-		} else {
-			code, _ = testdata.SumFunc()
-			a := w.Addrs[i]
-			for _, c := range live {
-				if c.Kind == "wasm-inc" {
-					a = c.Addr
-				}
-			}
-			args = [][]byte{a.Bytes()}
-		}
+	deploy := func(kind string, code []byte, args ...[]byte) {
 		p, _ := attachments.CreateDeployContractAttachment(common.Hash{}, code, []byte{byte(b), byte(b >> 8)}, args...).ToBytes()
 		tx := &types.Transaction{Type: types.DeployContractTx, Amount: Dna(int64(r.Intn(3))), Payload: p, MaxFee: new(big.Int).Add(budget, budget)}
 		if stx := h.try(i, fmt.Sprint("deploy-wasm", b), tx); stx != nil {
 			h.Contracts = append(h.Contracts, &ContractInfo{Kind: kind, Owner: i, deployTx: stx.Hash()})
 			h.Stats["contract:deploy-"+kind]++
 		}
+	}
+	// first an inc contract, then a sum contract bound to it (sum.invoke calls inc.inc and gets a callback: inner calls)
+	switch {
+	case pending > 0:
+		return
+	case len(incs) == 0:
+		code, _ := testdata.IncFunc()
+		deploy("wasm-inc", code)
+		return
+	case len(sums) == 0 || len(sums) < 2 && r.Intn(6) == 0:
+		code, _ := testdata.SumFunc()
+		a := incs[r.Intn(len(incs))].Addr
+		if len(sums) > 0 && r.Intn(2) == 0 {
+			a = w.Addrs[i] // bound to a plain address: the inner call fails, the callback aborts
+		}
+		deploy("wasm-sum", code, a.Bytes())
 		return
 	}
-	if len(live) == 0 {
+	if r.Intn(3) != 0 { // (wasm execution is slow: about one call in six blocks)
 		return
 	}
-	c := live[r.Intn(len(live))]
-	method, args := "inc", [][]byte{u64b(uint64(r.Intn(100)))}
-	if c.Kind == "wasm-sum" {
-		method, args = "invoke", [][]byte{u64b(uint64(r.Intn(100))), u64b(uint64(r.Intn(100)))}
+	c := sums[r.Intn(len(sums))]
+	method, args := "invoke", [][]byte{u64b(uint64(r.Intn(100))), u64b(uint64(r.Intn(100)))}
+	if r.Intn(4) == 0 {
+		c = incs[r.Intn(len(incs))]
+		method, args = "inc", [][]byte{u64b(uint64(r.Intn(100)))}
+	}
+	amt := Dna(int64(1 + r.Intn(60))) // the calls carry coins: they must end up on the called contract, once
+	if r.Intn(5) == 0 {
+		amt = nil
 	}
 	p, _ := attachments.CreateCallContractAttachment(method, args...).ToBytes()
 	x := c.Addr
-	tx := &types.Transaction{Type: types.CallContractTx, To: &x, Amount: Dna(int64(r.Intn(3))), Payload: p, MaxFee: new(big.Int).Set(budget)}
+	tx := &types.Transaction{Type: types.CallContractTx, To: &x, Amount: amt, Payload: p, MaxFee: new(big.Int).Set(budget)}
 	if h.try(i, fmt.Sprint("call-wasm", b, x.Hex()), tx) != nil {
 		h.Stats["contract:"+c.Kind+"."+method]++
 	}
